@@ -239,3 +239,23 @@ pub fn affix_classes(core: &[u8]) -> Vec<(String, Vec<u8>)> {
     v.push(("bom-both-ends".into(), [b"\xef\xbb\xbf".as_slice(), core, b"\xef\xbb\xbf"].concat())); v.push(("space-both-ends".into(), [b" ".as_slice(), core, b" "].concat()));
     v
 }
+
+/// The same JSON document with the characters of its string literals (member names and string values alike) written as
+/// \uXXXX escapes: `mode` 0 escapes the first character of every literal, 1 every ASCII letter and digit, 2 only literals
+/// that are values of a member called "type" or "name" (every character). A parser that borrows strings from the input
+/// (zero-copy) cannot borrow an escaped one; one that compares raw bytes with keywords sees another spelling.
+pub fn json_escaped(text: &str, mode: u8) -> String {
+    let mut out = String::with_capacity(text.len() * 3); let cs: Vec<char> = text.chars().collect(); let mut i = 0; let mut last_key = String::new();
+    while i < cs.len() {
+        if cs[i] != '"' { out.push(cs[i]); i += 1; continue; }
+        // a string literal: find its end
+        let mut j = i + 1; let mut body = String::new(); while j < cs.len() && cs[j] != '"' { if cs[j] == '\\' && j + 1 < cs.len() { body.push(cs[j]); body.push(cs[j + 1]); j += 2; } else { body.push(cs[j]); j += 1; } }
+        let mut k = j + 1; while k < cs.len() && cs[k].is_whitespace() { k += 1; } let is_key = k < cs.len() && cs[k] == ':';
+        let esc_all = |b: &str| { let mut o = String::new(); let bc: Vec<char> = b.chars().collect(); let mut x = 0; while x < bc.len() { if bc[x] == '\\' && x + 1 < bc.len() { o.push(bc[x]); o.push(bc[x + 1]); x += 2; } else { if bc[x].is_ascii_alphanumeric() { o.push_str(&format!("\\u{:04x}", bc[x] as u32)); } else { o.push(bc[x]); } x += 1; } } o };
+        let new_body = match mode { 0 => match body.chars().next() { Some(c) if c.is_ascii_alphanumeric() => format!("\\u{:04x}{}", c as u32, &body[c.len_utf8()..]), _ => body.clone() }, 1 => esc_all(&body),
+            _ => if !is_key && (last_key == "type" || last_key == "name") { esc_all(&body) } else { body.clone() } };
+        out.push('"'); out.push_str(&new_body); out.push('"'); if is_key { last_key = body.clone(); }
+        i = j + 1;
+    }
+    out
+}
